@@ -5,3 +5,30 @@ pub proof fn lemma_force_order<T>(t0: Seq<T>, a: T, b: T)
 {
     assert(t0.push(a).push(b) =~= t0 + seq![a, b]);
 }
+
+// ---------------------------------------------------------------------------
+// C04, "including when the calling thread's command queue is full": when force_send returns, the
+// forced command is in the ring, where the collector can see it.  NOT PROVABLE, and rightly so:
+// force_send's (proved) postcondition is total' == total.push(v) with total = pushed ++ pending --
+// on a full ring the command stays in the sender's thread-local overflow list, and nothing moves it
+// into the ring until the SAME thread sends again.  A cancel() parked this way is overtaken by the
+// CommitCollect that another thread sends when it drops the root, and the cancelled trace is
+// delivered (findings/D13 reproduces it on the real code: 10353 records of a cancelled trace).
+// Kept as an obligation so that the check keeps reporting it; listed in known_findings.json, where
+// it is printed as KNOWN-FINDING instead of VIOLATION.
+// ---------------------------------------------------------------------------
+pub proof fn thm_c04_forced_command_is_in_the_ring_when_force_send_returns<T>(pushed0: Seq<T>, pending0: Seq<T>, pushed1: Seq<T>, pending1: Seq<T>, v: T)
+    requires
+        // what Sender::force_send is proved to establish
+        pushed1 + pending1 =~= (pushed0 + pending0).push(v),
+    ensures
+        pending1.len() == 0,
+{
+}
+
+// what does hold: the command is not lost and keeps its place in the thread's own order
+pub proof fn thm_c04_forced_command_keeps_its_place_in_the_threads_order<T>(pushed0: Seq<T>, pending0: Seq<T>, pushed1: Seq<T>, pending1: Seq<T>, v: T)
+    requires pushed1 + pending1 =~= (pushed0 + pending0).push(v),
+    ensures (pushed1 + pending1).last() == v, (pushed1 + pending1).drop_last() =~= pushed0 + pending0,
+{
+}
